@@ -168,6 +168,56 @@ func main() {
 		}()
 	}
 
+	// ---- Family 0: the very first start on an empty directory -------------
+	{
+		tm, err := c08.NewRunner(func() string {
+			d := filepath.Join(root, "c08-genesis-model")
+			_ = os.RemoveAll(d)
+			_ = c08.CopyDir(tmpl, d)
+			return d
+		}(), params(), 1)
+		if err != nil {
+			r.Inconclusive("genesis model: " + err.Error())
+		} else {
+			genesis := tm.Model
+			tm.Close()
+			dir := filepath.Join(root, "c08-create")
+			_ = os.RemoveAll(dir)
+			_ = os.MkdirAll(dir, 0o755)
+			nimg := 0
+			err := c08.CreationPoints(dir, params(), func(pt c08.Point) {
+				img := filepath.Join(root, fmt.Sprintf("c08-create-img-%d", nimg))
+				nimg++
+				if err := c08.CopyDir(dir, img); err != nil {
+					r.Inconclusive("image copy: " + err.Error())
+					return
+				}
+				op := c08.Op{Kind: "create"}
+				seed := int64(7700 + nimg)
+				checks <- func() {
+					fs, inc := (&c08.ImageCheck{Dir: img, Params: params(), Before: genesis, After: genesis,
+						Rng: rand.New(rand.NewSource(seed)),
+						Sig: c08.ScriptSig(op, pt), Ctx: "crash at " + pt.Name + " during the first start on an empty directory (point " + fmt.Sprint(nimg) + ")",
+						BM: bmOpts, Stats: bmStats}).Run()
+					_ = os.RemoveAll(img)
+					if inc != "" {
+						r.Inconclusive(inc)
+					}
+					r.Case("create|"+pt.Class+"|"+fmt.Sprint(seed), true)
+					r.Count("crash_images_checked", 1)
+					r.Count("creation_images_checked", 1)
+					for _, fd := range fs {
+						r.Violation(fd.Sig, fd.What, map[string]any{"point": pt.Name, "family": "first start on an empty directory"})
+					}
+				}
+			})
+			if err != nil {
+				r.Violation(evid.Sig("c08/operation-failed", "create"), "the first start on an empty directory failed without any fault: "+err.Error(), nil)
+			}
+			_ = os.RemoveAll(dir)
+		}
+	}
+
 	// ---- Family 1: scripts of store primitives ----------------------------
 	jobs := make(chan int)
 	for w := 0; w < min(workers, 6); w++ {
